@@ -233,19 +233,18 @@ theorem parseStatusLine_inner (m) (l : Bytes) : PR Inner (parseStatusLine m l) :
 macro_rules | `(tactic| inner_leaf) => `(tactic| with_reducible exact parseStatusLine_inner _ _)
 
 /-- the exception carried by the 301 redirect is itself a status error -/
-theorem movedPermanently_outer (E) (p : Bytes) : Outer (movedPermanently E p) = true := by
+theorem movedPermanently_outer (E) (o p : Bytes) : Outer (movedPermanently E o p) = true := by
   unfold movedPermanently
+  dsimp only
   split
-  · rename_i e he; exact PR.to400_outer (uparse_inner _ _ _) _ he
-  · split
-    · rename_i e he; exact PR.to400_outer (ucompose_inner _ _) _ he
-    · rfl
+  · rename_i e he; exact PR.to400_outer (ucompose_inner _ _) _ he
+  · rfl
 
 theorem serverStartlineComplete_inner (E m) : PR Inner (serverStartlineComplete E m) := by
   unfold serverStartlineComplete
-  have := fun p => Outer.inner (movedPermanently_outer E p)
+  have := fun o p => Outer.inner (movedPermanently_outer E o p)
   inner
-  exact PR.error _ (this _)
+  all_goals exact PR.error _ (this _ _)
 macro_rules | `(tactic| inner_leaf) => `(tactic| with_reducible exact serverStartlineComplete_inner _ _)
 theorem setPortOpt_inner (u p) : PR Inner (setPortOpt u p) := by unfold setPortOpt; inner
 macro_rules | `(tactic| inner_leaf) => `(tactic| with_reducible exact setPortOpt_inner _ _)
